@@ -319,8 +319,11 @@ def big_world(arg):
     seams.deterministic_wallet_signing()
     vals = {'5-ones-4': (5,) + (1,) * (N - 2) + (4,), 'ones': (1,) * N, 'ones-7': (1,) * (N - 1) + (7,),
             '9-ones': (9,) + (1,) * (N - 1), 'twos': (2,) * N,
-            'twos-51s': (2,) * (N - 10) + (51,) * 10}[pattern]
+            'twos-51s': (2,) * (N - 10) + (51,) * 10, 'interleaved-big': (1,) * (N - 3) + (300, 350, 400)}[pattern]
     dist = (vals[:N // 2], vals[N // 2:]) if two_keys else (vals, ())
+    if pattern == 'interleaved-big':
+        # the three largest outputs belong to K0, K1, K0 in that order of value: a selection by value interleaves the owners
+        dist = ((1,) * (N - 3) + (300, 400), (350,))
     root, n1 = make_world(dist, False, False, 'asc')
     cs0 = CoinState.empty().add_block_no_validation(root.block).add_block(n1.block, n1.ts)
     keys = [K[0], K[1]] if korder == 0 else [K[1], K[0]]
@@ -345,6 +348,8 @@ def big_world(arg):
     if pattern == 'twos-51s':
         # ledger order: 1,986 / 1,986 / 2,201 inputs; largest first: 1,741 inputs and change 1 / no change / 1,956 inputs
         attempts = [(3971, 0), (3972, 0), (4400, 1)]
+    if pattern == 'interleaved-big':
+        attempts = [(1040, 0), (2500, 1), (1051, 0)]
     # (the attempts of one world are independent single steps from the same state: they may be spread over workers)
     attempts = attempts[part::nparts]
     for amount, fee in attempts:
@@ -354,6 +359,25 @@ def big_world(arg):
         for key, what in viol:
             if len(bad) < 6:
                 bad.append((key, what, (('spend', amount, fee),)))
+    if pattern == 'interleaved-big' and part == 0:
+        # the signer by itself: an unsigned transaction whose inputs alternate between the wallet's keys
+        from skepticoin import consensus
+        from skepticoin.datatypes import Input, Output, Transaction
+        from skepticoin.wallet import Wallet, sign_transaction
+        U = cs0.at_head.unspent_transaction_outs
+        big = sorted((r for r, v in wallet_outputs(n1).items() if v >= 300), key=lambda r: -wallet_outputs(n1)[r])
+        refs = [world.oref(r) for r in big[:3]]
+        stats['transitions'] += 1
+        try:
+            utx = Transaction([Input(r, None) for r in refs], [Output(1040, K[2].pk), Output(10, K[1].pk)])
+            stx = sign_transaction(Wallet({k.pub: k.priv for k in keys}, [], {}), U, utx)
+            consensus.validate_non_coinbase_transaction_by_itself(stx)
+            consensus.validate_non_coinbase_transaction_in_coinstate(stx, cs0.current_chain_hash, cs0)
+            if [i.output_reference for i in stx.inputs] != refs or refmodel.validate_tx(stx, n1.utxo):
+                bad.append(('invalid-transaction', "sign_transaction on inputs owned by K0, K1, K0 returns a transaction that breaks %s"
+                            % sorted(refmodel.validate_tx(stx, n1.utxo)), (('sign', 'K0,K1,K0'),)))
+        except Exception as e:
+            bad.append(('invalid-transaction', "sign_transaction on inputs owned by K0, K1, K0: %r" % (e,), (('sign', 'K0,K1,K0'),)))
     return stats, bad, ('big',) + tuple(arg)
 
 
@@ -361,7 +385,7 @@ def big_worlds(ctx):
     N = 1100
     # (2,100 outputs: requests that need more inputs than fit in a block)
     out = [('5-ones-4', N, False, 0), ('ones-7', N, False, 0), ('9-ones', N, True, 0), ('5-ones-4', 2100, False, 0), ('twos', 2100, False, 0),
-           ('ones-7', 2100, False, 0), ('twos-51s', 2100, False, 0)]
+           ('ones-7', 2100, False, 0), ('twos-51s', 2100, False, 0), ('interleaved-big', 2101, False, 0)]
     if not ctx.quick:
         out += [('ones', N, False, 0), ('5-ones-4', N, True, 1), ('9-ones', 2100, True, 1)]
     # the large worlds first and in parts, so that no single worker carries the whole of one
